@@ -17,7 +17,7 @@ func mkCorpus(t *testing.T, name string, c *om.Case, v variant) {
 	ms, info := evalCase(c, []variant{v})
 	key, what := "", ""
 	if info.rejected != "" {
-		key, what = fmt.Sprintf("wat2c-panic:op=%s/%s", c.Funcs[0].Op, c.Funcs[0].Shape), info.rejected
+		key, what = fmt.Sprintf("op=%s/%s@wat2c-panic", c.Funcs[0].Op, c.Funcs[0].ShapeClass()), info.rejected
 	}
 	if len(ms) > 0 {
 		key, what = ms[0].key, ms[0].what
@@ -48,6 +48,13 @@ func TestMkCorpus(t *testing.T) {
 	mk("multi-return-implicit-order", om.Handmade(cfg, "ii", "ii", "return", true, false, nil, []string{"local.get $b", "local.get $a"}, u(1, 2)))
 	mk("multi-return-implicit-mixed", om.Handmade(cfg, "iF", "Fi", "return", true, false, nil, []string{"local.get $b", "local.get $a"}, u(1, 2)))
 	mk("br_if-value", om.Handmade(cfg, "iii", "i", "br_if", true, false, nil, []string{"block $B (result i32)", "local.get $a", "local.get $b", "br_if $B", "drop", "local.get $c", "end"}, u(7, 1, 9), u(7, 0, 9)))
+	mk("br_table-value", func() *om.Case {
+		c := om.Handmade(cfg, "ii", "i", "br_table", true, false, nil, []string{"block $b1 (result i32)", "block $b0 (result i32)", "local.get $b", "local.get $a", "br_table $b0 $b1", "end", "i32.const 10", "i32.add", "end", "i32.const 20", "i32.add"}, u(0, 5), u(1, 5))
+		c.Funcs[0].Shape = "brtableval"
+		return c
+	}())
+	mk("if-else-multi-result", om.Handmade(cfg, "iIi", "Ii", "if", true, false, nil, []string{"local.get $a", "if $I (result i64 i32)", "local.get $b", "local.get $c", "else", "i64.const 5", "i32.const 6", "end"}, u(1, 7, 8), u(0, 7, 8)))
+	mk("implicit-return-after-nested-unreachable", om.Handmade(cfg, "i", "i", "unreachable", true, false, nil, []string{"local.get $a", "if $I (result i32)", "i32.const 7", "else", "i32.const 0", "unreachable", "end"}, u(1), u(5)))
 	mk("i32-shl-count-32", om.Handmade(cfg, "ii", "i", "i32.shl", true, false, nil, []string{"local.get $a", "local.get $b", "i32.shl"}, u(1, 32), u(3, 33)))
 	mk("f32-nearest-tie", om.Handmade(cfg, "f", "f", "f32.nearest", false, false, nil, []string{"local.get $a", "f32.nearest"}, u(0x40200000), u(0x3f000000), u(0xbf000000)))
 	mk("f64-nearest-tie", om.Handmade(cfg, "F", "F", "f64.nearest", false, false, nil, []string{"local.get $a", "f64.nearest"}, u(0x4004000000000000), u(0x3fe0000000000000)))
